@@ -10,6 +10,39 @@ use seq_io::{fasta, fastq};
 use std::borrow::Cow;
 use std::collections::VecDeque;
 
+
+/// C20: `nth(n)` / `skip(n)` with n >= remaining must consume the iterator: afterwards it keeps
+/// reporting the end and its size hint is (0, Some(0)) or at least brackets 0.
+macro_rules! check_overshoot {
+    ($make:expr, $n:expr, $ctx:expr, $what:expr) => {{
+        let n: usize = $n;
+        for extra in 0..2usize {
+            let mut it = $make;
+            if it.nth(n + extra).is_some() {
+                report($ctx, "C20.nth_overshoot", format!("{}: nth({}) on an iterator with {} items returned an item", $what, n + extra, n));
+            }
+            let (lo, _) = it.size_hint();
+            if lo != 0 || it.next().is_some() || it.next().is_some() {
+                report($ctx, "C20.nth_overshoot", format!("{}: after nth({}) reported the end of an iterator with {} items, it yields items again / size_hint lower bound {}", $what, n + extra, n, lo));
+            }
+            let mut sk = $make.skip(n + extra);
+            if sk.next().is_some() || sk.next().is_some() {
+                report($ctx, "C20.skip_overshoot", format!("{}: skip({}) over {} items yields an item", $what, n + extra, n));
+            }
+        }
+        if n >= 2 {
+            // nth within range consumes exactly n+1 items
+            let mut it = $make;
+            let k = n / 2;
+            let _ = it.nth(k);
+            let rest = it.count();
+            if rest != n - k - 1 {
+                report($ctx, "C20.nth_in_range", format!("{}: after nth({}) of {} items {} remain, expected {}", $what, k, n, rest, n - k - 1));
+            }
+        }
+    }};
+}
+
 fn report(ctx: &mut MonCtx, rule: &str, detail: String) {
     if ctx.found.len() < 8 {
         ctx.found.push((rule.to_string(), detail));
@@ -236,6 +269,7 @@ pub fn fasta_set(set: &fasta::RecordSet, ctx: &mut MonCtx) {
                 report(ctx, "C20.set_iter_fused", "fasta RecordSetIter yields a record after reporting the end".into());
             }
         }
+        check_overshoot!(set.into_iter(), n, ctx, "fasta RecordSetIter");
         ctx.iter_histories += 1;
     }
 }
@@ -313,6 +347,7 @@ fn seq_lines_history(rec: &fasta::RefRecord, o: &RecObs, ctx: &mut MonCtx) {
             return;
         }
     }
+    check_overshoot!(rec.seq_lines(), n, ctx, "SeqLines");
     let collected: Vec<Vec<u8>> = rec.seq_lines().map(|l| l.to_vec()).collect();
     if collected != o.lines {
         report(ctx, "C20.seq_lines_collect", "collect() differs from line list".into());
@@ -430,6 +465,7 @@ pub fn fastq_set(set: &fastq::RecordSet, ctx: &mut MonCtx) {
                 report(ctx, "C20.set_iter_fused", "fastq RecordSetIter yields a record after reporting the end".into());
             }
         }
+        check_overshoot!(set.into_iter(), n, ctx, "fastq RecordSetIter");
         ctx.iter_histories += 1;
     }
 }
